@@ -601,7 +601,7 @@ func asNontrivial(ev []map[string]any) bool {
 
 var asOpsBasic = [][2]string{{"nop", ""}, {"nop", ""}, {"fail", ""}, {"tell", "@"}, {"kill", "@"}, {"pkill", "@"}}
 var asOpsStash = [][2]string{{"nop", ""}, {"stash", ""}, {"stash", ""}, {"unstash", ""}, {"fail", ""}, {"tell", "@"}, {"tellself", ""}}
-var asOpsStream = [][2]string{{"nop", ""}, {"sub", "A"}, {"sub", "B"}, {"unsub", "A"}, {"unsub", "B"}, {"unsuball", ""}, {"pub", "A"}, {"pub", "A"}, {"pub", "B"}, {"fail", ""}, {"kill", "@"}}
+var asOpsStream = [][2]string{{"nop", ""}, {"sub", "A"}, {"sub", "B"}, {"unsub", "A"}, {"unsub", "B"}, {"unsuball", ""}, {"sub", "C"}, {"sub", "D"}, {"unsub", "C"}, {"pub", "C"}, {"pub", "D"}, {"pub", "A"}, {"pub", "A"}, {"pub", "B"}, {"fail", ""}, {"kill", "@"}}
 var asOpsWatch = [][2]string{{"nop", ""}, {"watch", "@"}, {"watch", "@"}, {"unwatch", "@"}, {"kill", "@"}, {"pkill", "@"}, {"fail", ""}}
 
 func init() {
@@ -672,13 +672,23 @@ func init() {
 			return
 		}
 		st = append(st, st2...)
+		// many subscribers of one type (more than any fan-out threshold a stream might have), a burst from one publisher
+		for i, n := range core.Pick(c, []int{40, 70}, []int{40, 70, 130, 33, 257}) {
+			mt, err := runManySubscribers(c.Seed+int64(i), n, core.Pick(c, 60, 200))
+			if err != nil {
+				c.Broken("many subscribers: %v", err)
+				return
+			}
+			c.Add("evaluations", 1)
+			st = append(st, mt)
+		}
 		res := ValidateTraces(c, "asmon", "StreamMon", "StreamMon.cfg", st, asDefaults)
 		res.Report(c, "StreamMon")
 		c.Add("traces_validated_against_impl", int64(res.Validated))
 	})
 	register("C08", func(c *core.Ctx) {
 		asCheck(c, asPlan{prop: "C08", monitors: []string{"SuperviseMon", "StateMon"}, mc: t3, gen: g3, ops: [][2]string{{"nop", ""}, {"nop", ""}, {"fail", ""}, {"tell", "@"}}, directed: asOverlappingEscalations,
-			rule: base + "Judged by SuperviseMon."})
+			rule: base + "Judged by SuperviseMon and StateMon (the jobs of a resumed actor's scheduler survive; restart targets keep their reference when a Kill arrives during a one-for-all restart)."})
 	})
 	register("C05", func(c *core.Ctx) {
 		asCheck(c, asPlan{prop: "C05", monitors: []string{"LifecycleMon"}, mc: []string{"MC_T3_" + asVariant + ".cfg"}, gen: []string{"Gen_T3_" + asVariant + ".cfg"},
